@@ -16,6 +16,115 @@ use tokio::io::{AsyncRead, AsyncWrite, ReadBuf};
 
 use crate::rng::Rng;
 
+/// Time pump. tokio's paused clock only advances when the runtime is idle. Real peers sometimes
+/// busy-poll (h2 re-wakes itself while a shutdown flush is pending, for instance); in real time
+/// that merely burns CPU until the other side's timer fires, under a paused clock it would stop
+/// time for good. So stream operations are counted, and every `PUMP_EVERY` operations during
+/// which virtual time did not move the pump task advances the clock by one millisecond.
+/// Operation counts are deterministic, so replay is unaffected.
+struct PumpState {
+    ops: u64,
+    since_advance: u64,
+    last_now: Option<tokio::time::Instant>,
+    waker: Option<Waker>,
+    due: bool,
+    pumped_ms: u64,
+    runaway: Option<std::sync::Arc<tokio::sync::Notify>>,
+}
+
+/// more than this much virtual time advanced only because peers were busy-polling: give up
+pub const RUNAWAY_MS: u64 = 3000;
+
+const PUMP_EVERY: u64 = 3000;
+
+thread_local! {
+    static PUMP: std::cell::RefCell<PumpState> = const {
+        std::cell::RefCell::new(PumpState { ops: 0, since_advance: 0, last_now: None, waker: None, due: false, pumped_ms: 0, runaway: None })
+    };
+}
+
+pub fn reset_ops() {
+    PUMP.with(|p| {
+        let mut p = p.borrow_mut();
+        p.ops = 0;
+        p.since_advance = 0;
+        p.last_now = None;
+        p.waker = None;
+        p.due = false;
+        p.pumped_ms = 0;
+        p.runaway = None;
+    });
+}
+
+/// Notified once when the run is declared a runaway (see RUNAWAY_MS).
+pub fn runaway_signal() -> std::sync::Arc<tokio::sync::Notify> {
+    PUMP.with(|p| {
+        let mut p = p.borrow_mut();
+        p.runaway.get_or_insert_with(|| std::sync::Arc::new(tokio::sync::Notify::new())).clone()
+    })
+}
+
+pub fn is_runaway() -> bool {
+    pumped_ms() >= RUNAWAY_MS
+}
+
+pub fn ops() -> u64 {
+    PUMP.with(|p| p.borrow().ops)
+}
+
+pub fn pumped_ms() -> u64 {
+    PUMP.with(|p| p.borrow().pumped_ms)
+}
+
+fn count_op() {
+    PUMP.with(|p| {
+        let mut p = p.borrow_mut();
+        p.ops += 1;
+        let now = tokio::time::Instant::now();
+        if p.last_now != Some(now) {
+            p.last_now = Some(now);
+            p.since_advance = 0;
+        }
+        p.since_advance += 1;
+        if p.since_advance >= PUMP_EVERY {
+            p.since_advance = 0;
+            p.due = true;
+            if let Some(w) = &p.waker {
+                w.wake_by_ref();
+            }
+        }
+        if p.ops % 4_000_000 == 0 && std::env::var("VERIF_DBG_BT").is_ok() {
+            eprintln!("=== {} stream operations in this run; poller:\n{}", p.ops, std::backtrace::Backtrace::force_capture());
+        }
+    });
+}
+
+/// Run as a local task for the duration of a simulation that uses SimStream.
+pub async fn time_pump() {
+    loop {
+        std::future::poll_fn(|cx| {
+            PUMP.with(|p| {
+                let mut p = p.borrow_mut();
+                if p.due {
+                    p.due = false;
+                    p.pumped_ms += 1;
+                    if p.pumped_ms == RUNAWAY_MS {
+                        if let Some(n) = &p.runaway {
+                            n.notify_one();
+                        }
+                    }
+                    Poll::Ready(())
+                } else {
+                    p.waker = Some(cx.waker().clone());
+                    Poll::Pending
+                }
+            })
+        })
+        .await;
+        tokio::time::advance(Duration::from_millis(1)).await;
+    }
+}
+
 #[derive(Clone, Copy, Debug, Serialize, Deserialize, PartialEq, Eq)]
 pub enum Chunk {
     Whole,
@@ -50,6 +159,15 @@ impl IoMode {
             cap: *r.pick(&[1usize, 2, 7, 64, 1024, 65536]),
         }
     }
+    /// For connections that carry HTTP/2 or TLS: both need room in both directions at once
+    /// (control frames, window updates, handshake flights). With a socket buffer of a few bytes
+    /// two peers that are both blocked on writing deadlock, which is their documented behaviour
+    /// and not what is being tested.
+    pub fn draw_roomy(r: &mut Rng) -> Self {
+        let mut m = Self::draw(r);
+        m.cap = *r.pick(&[512usize, 4096, 16384, 65536]);
+        m
+    }
     pub fn is_plain(&self) -> bool {
         self.chunk == Chunk::Whole && self.pending_pct == 0 && self.delay_pct == 0
     }
@@ -77,6 +195,7 @@ pub struct PipeStats {
     pub short_writes: u64,
     pub pending_injected: u64,
     pub delays_injected: u64,
+    pub delays_abandoned: u64,
     pub faults_fired: Vec<FaultKind>,
     pub tiny_buffer_full: u64,
     pub vectored_writes: u64,
@@ -196,8 +315,8 @@ pub struct SimStream {
     pub id: u32,
     pub rx: PipeRef,
     pub tx: PipeRef,
-    delay_r: Option<Pin<Box<tokio::time::Sleep>>>,
-    delay_w: Option<Pin<Box<tokio::time::Sleep>>>,
+    delay_r: Option<(Pin<Box<tokio::time::Sleep>>, u32)>,
+    delay_w: Option<(Pin<Box<tokio::time::Sleep>>, u32)>,
 }
 
 impl std::fmt::Debug for SimStream {
@@ -230,16 +349,25 @@ impl hyperdriver::client::pool::PoolableStream for SimStream {
 }
 
 /// Returns true when the poll must answer Pending now.
+///
+/// A virtual delay is abandoned when the stream is polled again and again while it is pending:
+/// the paused clock only advances when the runtime is idle, so a peer that busy-polls (h2 wakes
+/// itself "one more time" during shutdown, for instance) would otherwise wait forever for time
+/// that cannot pass. Poll counts are deterministic, so this does not affect replay.
 fn inject_wait(
-    slot: &mut Option<Pin<Box<tokio::time::Sleep>>>,
+    slot: &mut Option<(Pin<Box<tokio::time::Sleep>>, u32)>,
     cx: &mut Context<'_>,
     mode: &IoMode,
     rng: &mut Rng,
     stats: &mut PipeStats,
 ) -> bool {
-    if let Some(s) = slot.as_mut() {
+    if let Some((s, polls)) = slot.as_mut() {
         if s.as_mut().poll(cx).is_pending() {
-            return true;
+            *polls += 1;
+            if *polls < 32 {
+                return true;
+            }
+            stats.delays_abandoned += 1;
         }
         *slot = None;
         return false; // the wait is over: make progress on this poll
@@ -249,7 +377,7 @@ fn inject_wait(
         let mut s = Box::pin(tokio::time::sleep(Duration::from_millis(d)));
         stats.delays_injected += 1;
         if s.as_mut().poll(cx).is_pending() {
-            *slot = Some(s);
+            *slot = Some((s, 0));
             return true;
         }
         return false;
@@ -264,6 +392,7 @@ fn inject_wait(
 
 impl AsyncRead for SimStream {
     fn poll_read(mut self: Pin<&mut Self>, cx: &mut Context<'_>, dst: &mut ReadBuf<'_>) -> Poll<io::Result<()>> {
+        count_op();
         let this = &mut *self;
         let mut p = this.rx.lock();
         let p = &mut *p;
@@ -302,6 +431,7 @@ impl AsyncRead for SimStream {
 
 impl SimStream {
     fn write_some(&mut self, cx: &mut Context<'_>, bufs: &[&[u8]], vectored: bool) -> Poll<io::Result<usize>> {
+        count_op();
         let mut p = self.tx.lock();
         let p = &mut *p;
         let total: usize = bufs.iter().map(|b| b.len()).sum();
